@@ -186,7 +186,7 @@ def entry_point_histories(res, tier):
         if ncomp < 2:
             continue
         via = "string" if idx % 4 == 0 else "script"
-        timers = idx % 3 == 1          # a third of the chains with the compile timers enabled
+        timers = idx % 3 == 1 or scen == "failedcompile" and idx % 2 == 1   # a third of the chains (and half of those with a failing compilation) with the compile timers enabled
         r = k10.run_scripts(events, results, f"c08h{idx}", via=via, timers=timers, raw=True)
         if r is None:
             stats["not_renderable"] += 1
